@@ -136,3 +136,23 @@ def _(self, data: Map('str', Val), encoded_members: ByteArray):
     # swallowed by the code (additions are encoded "as far as possible")
     assigns(encoded_members)
     ensures(len(encoded_members) >= len(old(encoded_members)) and encoded_members[:len(old(encoded_members))] == old(encoded_members))
+
+
+@contract("asn1tools/codecs/compiler.py", "lowest_set_bit", abstract=True)
+def _(value: Int) -> Nat:
+    # index of the lowest set bit (0 for 0); assumed: (value & -value) is a bit trick outside the modelled shapes
+    ensures(result >= 0)
+
+
+@contract("encode_real", props=["C01", "C03"], bounded="integer part only: floating point operations are unconstrained")
+def _(data: Float) -> Bytes:
+    # REAL (X.690 8.5), integer part only: IEEE-754 operations (frexp, float multiplication, comparisons with inf/nan)
+    # are outside this family and are treated as returning arbitrary values; what IS decided for every such value is
+    # that the one-octet exponent form is used only for exponents that fit one octet of two's complement, the
+    # two-octet form only for those that fit two, and that the exponent octets written are that two's complement
+    raises(NotImplementedError)
+    raises(ValueError)           # 0x80 | ... > 255 cannot happen; binascii on an odd digit count cannot happen: see cut points
+    at_stmt("exponent = [128 | negative_bit, 255 - exponent & 255]",
+            check=[-128 <= exponent and exponent <= 127])
+    at_stmt("exponent = 65535 - exponent & 65535",
+            check=[-32768 <= exponent and exponent <= 32767])
